@@ -33,7 +33,7 @@ def cavity_vector_case(rep, r: dict) -> None:
     V, ph, En, bt, where = r["V"], r["phase"], r["energy"], r["beam"], r["where"]
     P = np.asarray(r["particles"], dtype=float)
     zeros = "none" if all(v != 0 for v in V) else ("all" if all(v == 0 for v in V) else "some")
-    sig = f"C10|Cavity|vectorised voltage, zeros:{zeros}|{bt}|{where}|"
+    sig = f"C10|Cavity|vectorised voltage, zeros:{zeros}{', zero length' if r['L'] == 0 else ''}|{bt}|{where}|"
     try:
         cav = cheetah.Cavity(length=torch.tensor(r["L"], dtype=F64), voltage=torch.tensor(V, dtype=F64),
                              phase=torch.tensor(ph, dtype=F64), frequency=torch.tensor(1.3e9, dtype=F64), dtype=F64, name="cav")
@@ -84,7 +84,7 @@ def cavity_vector_probe(ctx, n: int) -> None:
         elif pat == "some":
             V[int(rng.integers(B))] = 0.0
         ph = [float(E.pick(rng, 0.0, 30.0, 60.0, 180.0, -45.0, 90.0)) for _ in range(B)]
-        r = {"kind": "cavity_vector", "V": V, "phase": ph, "L": float(E.pick(rng, 1.0, 0.5, 1.0377)), "energy": float(E.pick(rng, 1e8, 6e6 + 1e8, 1.3e9)),
+        r = {"kind": "cavity_vector", "V": V, "phase": ph, "L": float(E.pick(rng, 1.0, 0.5, 1.0377, 0.0)), "energy": float(E.pick(rng, 1e8, 6e6 + 1e8, 1.3e9)),
              "beam": ["ParticleBeam", "ParameterBeam"][int(rng.integers(2))], "where": ["alone", "segment"][int(rng.integers(2))],
              "particles": LT.gen_particles(rng, 6).tolist(), "survival": [float(E.pick(rng, 1.0, 1.0, 0.0, 0.5)) for _ in range(6)]}
         rep.fals_cases += 1
